@@ -546,6 +546,13 @@ pub fn c07_case(rng: &mut Rng, max_objects: usize) -> String {
         common.n_geki = None;
         common.n_katu = None;
         common.state = None;
+        // make the carried-over fields matter: a non-default priority and an accuracy target
+        if rng.chance(1, 2) {
+            common.worst = Some(true);
+        }
+        if common.acc.is_none() && rng.chance(1, 2) {
+            common.acc = Some((rng.f64_range(50.0, 100.0) * 100.0).round() / 100.0);
+        }
         let want_c = common
             .apply(Performance::new(&explicit).difficulty(d.clone()))
             .calculate()
@@ -710,6 +717,13 @@ pub fn c08_case(rng: &mut Rng, max_objects: usize) -> String {
             &format!("lazer rate mod #{which} speed_change={rate} == clock_rate({rate})"),
             &all_results(&d_lazer, &c.conv, &spec),
             &all_results(&d_rate, &c.conv, &spec),
+        );
+        // the explicit rate wins whichever of the two calls comes first
+        let d_rate_first = apply_rest(&st, Difficulty::new().clock_rate(rate).mods(base_bits | if which == 3 { 256 } else { rate_bits }));
+        f.eq(
+            &format!("lazer rate mod #{which} speed_change={rate} == clock_rate({rate}) given before the mods"),
+            &all_results(&d_lazer, &c.conv, &spec),
+            &all_results(&d_rate_first, &c.conv, &spec),
         );
         // default speed change == legacy mod
         if which != 3 {
